@@ -2,7 +2,8 @@
 
 E-GRID.  Two parts, both run through the public entry points (``model.fit / personalize / estimate``):
 
-*constant*  every visit history over a tiny value alphabet (with missing values, features never observed,
+*constant*  (the anchored mechanism is also called directly on the unsorted rows - all public ingestion routes sort visits
+            by age, so 'last BY AGE' is otherwise unobservable)  every visit history over a tiny value alphabet (with missing values, features never observed,
             visits entirely missing) x every input row order x the 4 prediction types x both ingestion modes
             (``drop_full_nan``), alone and inside mixed cohorts (padding).  Reference: ten lines of plain Python.
 *lme*       a catalogue of univariate cohorts given by a closed-form formula of an integer index (Weyl
@@ -36,7 +37,7 @@ LEVEL = "exploration"
 RULE = (
     "constant part: complete enumeration of (visit table over the value alphabet incl. missing, row order = "
     "assignment of distinct ages to rows, prediction type, drop_full_nan) - each executed alone and inside mixed "
-    "cohorts; a history is distinct by (features, visits, alphabet, table, order) and NON-TRIVIAL when the four "
+    "cohorts, plus a direct call of the estimator on the rows as given; a history is distinct by (features, visits, alphabet, table, order) and NON-TRIVIAL when the four "
     "documented estimators do not all give the same answer on it (otherwise a wrong estimator cannot be seen). "
     "LME part: complete enumeration of (cohort index, random slope?, independent random effects?); a case is "
     "distinct by that triple and non-trivial when the fit is accepted and the estimated shrinkage is material "
@@ -237,6 +238,32 @@ def check_constant(nf, hists, ptype, drop_full_nan, forms, interleave=True):
     return outcomes, problems
 
 
+_ALGOS = {}
+
+
+def check_mechanism(nf, hist, ptype):
+    """The anchored mechanism itself, on the rows AS GIVEN (every public ingestion route sorts visits by age before the
+    algorithm sees them, so only a direct call - the form used by the library's own unit test - exercises 'last by age')."""
+    import torch
+
+    from leaspy.algo import AlgorithmSettings
+    from leaspy.algo.personalize import ConstantPredictionAlgorithm
+
+    if ptype not in _ALGOS:
+        _ALGOS[ptype] = ConstantPredictionAlgorithm(AlgorithmSettings("constant_prediction", prediction_type=ptype))
+    times = torch.tensor(hist["ages"], dtype=torch.float32)
+    values = np.array([[np.nan if v is None else v for v in row] for row in hist["rows"]], dtype=np.float32)
+    ref = ref_constant(hist, ptype, False)
+    site = "constant._get_individual_last_values"
+    try:
+        got = _ALGOS[ptype]._get_individual_last_values(times, values, features=FEATS[:nf])
+    except Exception as e:  # noqa: BLE001
+        return [(0, f"{site}|{type(e).__name__}|{ptype}", f"{type(e).__name__}: {e}", ref, None)]
+    if list(got.keys()) != FEATS[:nf] or not all(_value_ok(got[FEATS[f]], ref[f], ptype) for f in range(nf)):
+        return [(0, f"{site}|value mismatch|{ptype}", f"documented '{ptype}' estimator differs on unsorted rows", ref, {k: float(v) for k, v in got.items()})]
+    return []
+
+
 def _const_case(nf, hists, ptype, drop, forms, focus=None):
     return {"part": "constant", "n_features": nf, "ptype": ptype, "drop_full_nan": drop, "forms": list(forms), "focus": focus,
             "histories": [{"ages": h["ages"], "rows": h["rows"]} for h in hists]}
@@ -248,7 +275,9 @@ def _record_constant(acc, nf, hists, ptype, drop, forms, outcomes, problems):
             acc.outcome(o)
     for idx, sig, msg, exp, obs in problems:
         case = _const_case(nf, hists, ptype, drop, forms, focus=idx)
-        if idx is not None and len(hists) > 1:
+        if sig in acc.violations:  # already stored with a minimal (single-history) case: count only
+            pass
+        elif idx is not None and len(hists) > 1:
             # try to store the history alone (same code path); keep the cohort when it only fails in company
             _, p1 = check_constant(nf, [hists[idx]], ptype, drop, forms)
             if any(s == sig for _, s, *_ in p1):
@@ -266,6 +295,10 @@ def run_constant_singles(shard, acc):
             h = make_history(nf, nv, alpha, table, p)
             if _is_nontrivial(h):
                 acc.nontriv(h["key"])
+            for ptype in PTYPES:
+                acc.evaluation()
+                for idx, sig, msg, exp, obs in check_mechanism(nf, h, ptype):
+                    acc.violation(sig, msg, dict(_const_case(nf, [h], ptype, False, [], focus=0), direct=True), expected=exp, observed=obs)
             for drop in (False, True):
                 for ptype in PTYPES:
                     acc.evaluation()
@@ -298,6 +331,10 @@ def run_constant_batches(shard, acc):
         for h in hists[:n_main]:
             if _is_nontrivial(h):
                 acc.nontriv(h["key"])
+            for ptype in PTYPES:
+                acc.evaluation()
+                for idx, sig, msg, exp, obs in check_mechanism(nf, h, ptype):
+                    acc.violation(sig, msg, dict(_const_case(nf, [h], ptype, False, [], focus=0), direct=True), expected=exp, observed=obs)
         for drop in (False, True):
             for ptype in PTYPES:
                 acc.evaluation(len(hists))
@@ -716,7 +753,10 @@ def replay(case):
 
     warnings.filterwarnings("ignore")
     out = []
-    if case["part"] == "constant":
+    if case["part"] == "constant" and case.get("direct"):
+        for idx, sig, msg, exp, obs in check_mechanism(case["n_features"], case["histories"][0], case["ptype"]):
+            out.append({"signature": sig, "message": f"{msg} expected={exp} observed={obs}"})
+    elif case["part"] == "constant":
         hists = [{"ages": h["ages"], "rows": h["rows"]} for h in case["histories"]]
         _, problems = check_constant(case["n_features"], hists, case["ptype"], case["drop_full_nan"], case["forms"])
         for idx, sig, msg, exp, obs in problems:
